@@ -166,7 +166,8 @@ class Oracle(object):
 
     def is_gch(self, name):
         f = self.mod.funcs.get(name)
-        return bool(f and f.src_file and f.src_file.endswith('gch/small_vector.hpp'))
+        return bool(f and f.src_file and (f.src_file.endswith('gch/small_vector.hpp')
+                                          or f.src_file.endswith('canaries/sv_canary.hpp')))
 
     # ---- construction ----------------------------------------------------------------------
     def terminate_pads(self, f):
